@@ -57,7 +57,7 @@ THEOREMS = [
     "Klong.C03.call_is_substitution_at",
 ]
 
-FUEL = 400
+FUEL = 1000
 
 
 class Boom(Exception):
@@ -968,6 +968,93 @@ def case_locals(rng):
                                                        may=may, calls=[call]))
 
 
+# ---- long histories of failing calls, then probes (the budget a failed call may leave behind)
+
+HIST_PRELUDE = ["down::{:[x;1+down(x-1);0]}", "cnt::{:[x;.f(x-1;y+x);y]}", "bf::{boom(x)}", "bg::{inc(bf(x))}", "pq::add(1;)"]
+# failures that surface while the callee is resolved or the argument list is evaluated, nested 1-3 deep
+HIST_FAIL_ARGS = ["nosuch(1)", "inc(nosuch(1))", "inc(dbl(nosuch(2)))", "add(1;boom(2))", "add(boom(1);2)",
+                  "inc(dbl(boom(3)))", "inc([1 2]+[1 2 3])", "dbl(add(1;[1 2]+[1 2 3]))", "mad(1;2;nosuch(3))",
+                  "pq(boom(1))", "{x+1}(boom(2))", "inc(bf(1))", "mad(inc(1);dbl(boom(1));3)", "inc@boom(1)",
+                  "add(1;nosuch(2))+inc(1)", "pick(boom(0);1;2)"]
+# failures inside the body of the callee, and calls that succeed
+HIST_OTHER = ["bf(1)", "bg(2)", "inc(1)", "add(2;3)", "pq(4)", "down(3)", "{boom(x);1}(0)", ":[boom(1);1;2]"]
+HIST_PROBES = ["inc(1)", "down(30)", "down(60)", "down(90)", "add(1;2)", "inc(dbl(inc(1)))", "cnt(40;0)", "pq(5)",
+               "inc'[1 2 3]", "add/[1 2 3 4]", "down(90)"]
+
+
+def case_history(rng, nfail):
+    stmts = list(PRELUDE) + list(HIST_PRELUDE)
+    ndefs = len(stmts)
+    for _ in range(nfail):
+        stmts.append(rng.choice(HIST_FAIL_ARGS))
+        if rng.random() < 0.25:
+            stmts.append(rng.choice(HIST_OTHER))
+    follow = len(stmts)
+    probes = list(HIST_PROBES)
+    rng.shuffle(probes)
+    stmts += probes
+    return dict(kind="history", stmts=stmts, meta=dict(ndefs=ndefs, follow=follow, nfail=nfail))
+
+
+# ---- function verbs of adverbs over list-valued members (matrices, rank 3)
+
+ADV_DYADS_ELEM = ["x+y", "x-y", "(x*2)+y", "y-x", "y", "x"]
+ADV_DYADS_LIST = ["x,y", "y,x", "(#x)+#y", "x,#y", "y", "x"]
+ADV_MONADS_ELEM = ["x+1", "x*x", "-x", "x"]
+ADV_MONADS_LIST = ["x,x", "#x", "0,x", "x"]
+
+
+def _matrix(rng, r, c):
+    return [[rng.choice([0, 1, 2, 3, 5, 7, -1, -3]) for _ in range(c)] for _ in range(r)]
+
+
+def case_adverb(rng):
+    """a user function as the verb of an adverb, the members of the operand being lists"""
+    shape = rng.choice(["matrix", "matrix", "matrix", "rank3", "flat", "onerow"])
+    if shape == "matrix":
+        m = _matrix(rng, rng.choice([2, 3, 4]), rng.choice([1, 2, 3]))
+    elif shape == "rank3":
+        m = [_matrix(rng, 2, 2) for _ in range(rng.choice([2, 3]))]
+    elif shape == "flat":
+        m = [rng.choice(ARG_INTS) for _ in range(rng.randrange(2, 5))]
+    else:
+        m = _matrix(rng, 1, rng.choice([2, 3]))
+    form = rng.choice(["over", "over", "over", "each", "scan", "eachpair", "overn"])
+    if shape == "onerow" and form in ("scan", "eachpair"):
+        form = "over"
+    monad = form == "each"
+    elem_ok = shape != "rank3"
+    if monad:
+        body = rng.choice(ADV_MONADS_ELEM + ADV_MONADS_LIST if elem_ok else ADV_MONADS_LIST)
+    else:
+        body = rng.choice(ADV_DYADS_ELEM + ADV_DYADS_LIST if elem_ok else ADV_DYADS_LIST)
+    stmts = list(PRELUDE) + ["f::{" + body + "}", ("t::{y;" if monad else "t::{z;") + body + "}", "m::" + lit_text(m)]
+    ndefs = len(stmts)
+    adv = {"over": "/", "each": "'", "scan": "\\", "eachpair": ":'", "overn": "/"}[form]
+    spelling = rng.choice(["named", "lambda", "proj", "param", "var"])
+    operand = rng.choice(["m", lit_text(m)])
+    neutral = None
+    if form == "overn":
+        neutral = rng.choice(m) if rng.random() < 0.6 else (rng.choice(SMALL) if shape == "flat" else rng.choice(m))
+    pre = (lit_text(neutral) + " ") if form == "overn" else ""
+    if spelling == "named":
+        text = f"{pre}f{adv}{operand}"
+    elif spelling == "lambda":
+        text = f"{pre}{{{body}}}{adv}{operand}"
+    elif spelling == "proj":
+        text = f"{pre}t({';' if monad else ';;'}0){adv}{operand}"
+    elif spelling == "var":
+        stmts.append("v::f")
+        ndefs += 1
+        text = f"{pre}v{adv}{operand}"
+    else:
+        inner = f"x{adv}y" if form != "overn" else f"z x{adv}y"
+        text = "{" + inner + "}(f;" + operand + ((";" + lit_text(neutral)) if form == "overn" else "") + ")"
+    stmts.append(text)
+    return dict(kind="adverb", stmts=stmts, meta=dict(form=form, monad=monad, m=m, neutral=neutral, ndefs=ndefs,
+                                                       spelling=spelling, shape=shape, body=body))
+
+
 # --------------------------------------------------------------------------- oracles
 
 def _big_int(s):
@@ -1293,7 +1380,91 @@ def oracle_locals(ctx, case, obs):
     ctx.bump("oracle:locals")
 
 
-ORACLES = dict(subst=oracle_subst, rec=oracle_rec, proj=oracle_proj, cond=oracle_cond, frame=oracle_frame,
+def oracle_history(ctx, case, obs):
+    m = case["meta"]
+    if not _ok_prefix(obs, m["ndefs"]):
+        ctx.bump("gen-reject:" + case["kind"])
+        return
+    for o in obs[m["ndefs"]:m["follow"]]:
+        if not frame_check(ctx, case, o, [], f"history of {m['nfail']} failing calls"):
+            return
+    twin = Real()
+    for text in case["stmts"][:m["ndefs"]]:
+        twin.run(text)
+    for o in obs[m["follow"]:]:
+        tout, tdig = twin.run(o["text"])
+        if "err fuel" in (tout, o["out"]) and tout == o["out"]:
+            continue
+        if (tout, tdig) != (o["out"], o["digest"]):
+            ctx.oracle_fail("frame:history", dict(case=_js(case), text=o["text"]), f"{tout} {tdig}"[:400],
+                            f"{o['out']} {o['digest']}"[:400],
+                            f"after a history of {m['nfail']} failed calls a program behaves differently than on an "
+                            "interpreter that never ran them")
+            return
+    ctx.bump("oracle:history")
+
+
+def oracle_adverb(ctx, case, obs):
+    m = case["meta"]
+    if not _ok_prefix(obs, m["ndefs"]):
+        ctx.bump("gen-reject:" + case["kind"])
+        return
+    o = obs[-1]
+    twin = Real()
+    for text in case["stmts"][:m["ndefs"]]:
+        twin.run(text)
+
+    def app(*args):
+        r, _ = twin.run("f(" + ";".join(lit_text(a) for a in args) + ")")
+        if not r.startswith("ok"):
+            raise _Stop(r)
+        return _plain_of_wire(r[3:])
+
+    members, form = m["m"], m["form"]
+    try:
+        if form == "each":
+            want = [app(a) for a in members]
+        elif form == "over":
+            acc = members[0]
+            for a in members[1:]:
+                acc = app(acc, a)
+            want = acc
+        elif form == "overn":
+            acc = m["neutral"]
+            for a in members:
+                acc = app(acc, a)
+            want = acc
+        elif form == "scan":
+            acc = members[0]
+            want = [acc]
+            for a in members[1:]:
+                acc = app(acc, a)
+                want.append(acc)
+        else:
+            want = [app(a, b) for a, b in zip(members, members[1:])]
+        wout = "ok " + _wire_of(want)
+    except _Stop as e:
+        wout = e.args[0]
+    except Unsupported:
+        ctx.bump("oracle-skip")
+        return
+    if _big_int(wout) or _big_int(o["out"]):
+        ctx.bump("oracle-skip")
+        return
+    frame_check(ctx, case, o, [], "function verb of an adverb")
+    if o["out"] != wout:
+        ctx.oracle_fail("adverb:" + form, dict(case=_js(case), text=o["text"]), wout, o["out"],
+                        f"a function as the verb of {form} ({m['spelling']}, {m['shape']} operand) differs from the "
+                        "explicit direct calls")
+        return
+    ctx.bump("oracle:adverb:" + form)
+
+
+class _Stop(Exception):
+    pass
+
+
+ORACLES = dict(history=oracle_history, adverb=oracle_adverb, subst=oracle_subst, rec=oracle_rec, proj=oracle_proj, cond=oracle_cond, frame=oracle_frame,
                locals=oracle_locals, hand=None)
 
 
@@ -1536,7 +1707,10 @@ def run(ctx):
                 "name, every ordered set partition of the argument positions of arity 2 and 3 as a chain of projections "
                 "(named / literal first step, final step direct/@/each/over), conditionals over the truth universe with "
                 "logging branches, failing sub-expression at each of 11 positions x failing level x nesting depth <= 3 x "
-                "call style, declared locals; bare KlongContext operation sequences. distinct = distinct statement "
+                "call style, declared locals; function verbs of Over / Each / Scan / Each-pair / Over-neutral over "
+                "matrix and rank-3 operands (named, lambda, projection, parameter-held) against explicit direct calls; "
+                "histories of 60-200 failing calls followed by probes (recursion 30-90 deep) against a fresh "
+                "interpreter; bare KlongContext operation sequences. distinct = distinct statement "
                 "sequences; non-trivial = at least two statements")
     ctx.assumptions += [
         "the parser is not modelled: the model evaluates the AST the real parser produced",
@@ -1571,7 +1745,7 @@ def run(ctx):
             for n, p in parts:
                 for variant in ("named", "literal", "adverb"):
                     run_case(ctx, drv, case_proj(rng, n, p, variant))
-        n_subst, n_rec, n_cond, n_loc = (500, 120, 250, 250) if quick else (14000, 3000, 6000, 6000)
+        n_subst, n_rec, n_cond, n_loc = (400, 120, 200, 200) if quick else (14000, 3000, 6000, 6000)
         for _ in range(n_subst):
             run_case(ctx, drv, case_subst(rng))
         for _ in range(n_rec):
@@ -1580,6 +1754,10 @@ def run(ctx):
             run_case(ctx, drv, case_cond(rng))
         for _ in range(n_loc):
             run_case(ctx, drv, case_locals(rng))
+        for _ in range(250 if quick else 5000):
+            run_case(ctx, drv, case_adverb(rng))
+        for _ in range(3 if quick else 40):
+            run_case(ctx, drv, case_history(rng, rng.randrange(70, 110) if quick else rng.randrange(60, 200)))
         # failing sub-expression: every (depth, failing level, position), call styles sampled
         combos = [(d, l, p) for d in (1, 2, 3) for l in range(1, d + 1) for p in FRAME_POS]
         for _ in range(1 if quick else 40):
@@ -1587,7 +1765,7 @@ def run(ctx):
                 run_case(ctx, drv, case_frame(rng, d, l, p))
         for _ in range(100 if quick else 2000):
             run_case(ctx, drv, case_frame(rng))
-        for _ in range(200 if quick else 6000):
+        for _ in range(150 if quick else 6000):
             strict = rng.choice([0, 0, 1, 2])
             nsys = rng.choice([2, 2, 2, 1, 3])
             run_ctx_sequence(ctx, drv, gen_ctx_ops(rng, rng.randrange(3, 25)), strict, nsys)
